@@ -124,6 +124,21 @@ def check_from_rh(ctx, led, v, rule="C12.parse"):
     cstmt = ctor
     while not isinstance(cstmt, ast.stmt):
         cstmt = module.parent(cstmt)
+    # format errors take precedence: both format checks complete before the vector is parsed
+    def top_index(node):
+        for i, st_ in enumerate(f.node.body):
+            if st_ is node or any(x is node for x in ast.walk(st_)):
+                return i
+        return -1
+
+    led.check(
+        top_index(split_assign) < top_index(ctor) and top_index(fl) < top_index(ctor),
+        rule + ".order",
+        ck + " after the format checks",
+        module.where(ctor),
+        "the vector part is parsed before the score part has been checked: a string with a non-numeric score and an invalid "
+        "vector raises the vector error instead of %s" % malformed,
+    )
     obj_name = cstmt.targets[0].id if isinstance(cstmt, ast.Assign) and isinstance(cstmt.targets[0], ast.Name) else None
     # (d) exact comparison of scores()[0] with the parsed number
     def is_score0(e):
